@@ -112,6 +112,40 @@ func (s *S) ElemLeak(i int)  { s.mu.Lock(); p := &s.xs[i]; keepI = p; s.mu.Unloc
 func (t *T) Order()    { t.a = 1; close(t.ch) }
 func (t *T) OrderBad() { if t.b > 0 { t.a = 1 }; t.ch <- 1 }
 
+type U struct {
+	mu   sync.Mutex
+	stop func()
+	ctx  interface{ Done() <-chan struct{} }
+	out  chan int
+	wg   sync.WaitGroup
+}
+
+func (u *U) Shut() {
+	u.mu.Lock()
+	u.mu.Unlock()
+	u.stop()
+	u.wg.Wait()
+	if u.ctx != nil {
+		<-u.ctx.Done()
+	}
+	close(u.out)
+}
+func (u *U) Try(v int) bool {
+	select {
+	case <-u.ctx.Done():
+		return false
+	default:
+	}
+	p := make(chan error, 1)
+	_ = p
+	select {
+	case u.out <- v:
+	case <-u.ctx.Done():
+	}
+	return true
+}
+func (u *U) Spawn() { u.mu.Lock(); go func() { u.out <- 1 }(); u.mu.Unlock() }
+
 var keepI *Inner
 var keep func()
 
@@ -243,6 +277,51 @@ func selfTest() int {
 			bad++
 		}
 	}
+	type ce2 struct{ caller, callee, how, locks string; after, notMaybe, maybe []string }
+	has := func(xs []string, x string) bool {
+		for _, y := range xs {
+			if y == x {
+				return true
+			}
+		}
+		return false
+	}
+	for _, e := range []ce2{
+		{"U.Shut", "close(U.out)", "HCall", "", []string{"U.stop()", "U.wg.Wait", "lock(U.mu)", "unlock(U.mu)"}, nil, []string{"U.ctx.Done"}},
+		{"U.Shut", "U.ctx.Done", "HCall", "", []string{"U.wg.Wait"}, []string{"close(U.out)"}, nil},
+		{"U.Shut", "unlock(U.mu)", "HCall", "U.mu/W", []string{"lock(U.mu)"}, nil, nil},
+		{"U.Try", "send(U.out)", "HCall", "", []string{"U.ctx.Done", "makechan(chan error,1)"}, nil, nil},
+		{"U.Spawn", "go:U.Spawn$1", "HGo", "U.mu/W", []string{"lock(U.mu)"}, nil, nil},
+	} {
+		c, ok := gotc[e.caller+"|"+e.callee+"|"+e.how]
+		if !ok {
+			fmt.Printf("selftest FAIL: no call fact %s -> %s %s\n", e.caller, e.callee, e.how)
+			bad++
+			continue
+		}
+		if l := strings.Join(c.Locks, ","); l != e.locks {
+			fmt.Printf("selftest FAIL: call %s -> %s: locks {%s}, expected {%s}\n", e.caller, e.callee, l, e.locks)
+			bad++
+		}
+		for _, x := range e.after {
+			if !has(c.After, x) {
+				fmt.Printf("selftest FAIL: call %s -> %s: %s not in must-before set %v\n", e.caller, e.callee, x, c.After)
+				bad++
+			}
+		}
+		for _, x := range e.maybe {
+			if !has(c.Maybe, x) || has(c.After, x) {
+				fmt.Printf("selftest FAIL: call %s -> %s: %s should be in the may-before set only (%v / %v)\n", e.caller, e.callee, x, c.Maybe, c.After)
+				bad++
+			}
+		}
+		for _, x := range e.notMaybe {
+			if has(c.Maybe, x) {
+				fmt.Printf("selftest FAIL: call %s -> %s: %s in may-before set %v\n", e.caller, e.callee, x, c.Maybe)
+				bad++
+			}
+		}
+	}
 	if c, ok := gotc["T.Spawn$1|T.helper|HCall"]; ok || c.InGo {
 		_ = c
 	}
@@ -254,6 +333,6 @@ func selfTest() int {
 		}
 		return 1
 	}
-	fmt.Printf("selftest ok: %d expectations\n", len(expected)+16)
+	fmt.Printf("selftest ok: %d expectations\n", len(expected)+21)
 	return 0
 }
